@@ -460,6 +460,8 @@ func rulesC09(c *Ctx) {
 	floatModeZeroC09(c)
 	c.Rule("C09.pure", "Reduce and everything it calls in the package read no mutable package-level state: the fold of an expression depends on the expression and the valuer only (a memo of parsed time strings, say, would answer with the instant computed for another zone)")
 	pureRule(c, "C09.pure", "Reduce", "reduce")
+	// a fold that writes into the tree it was handed changes what the next fold (another clock, other bindings) sees
+	importRules(c, rulesC14, "C14.", "C09.input-", func(r string) bool { return r == "C14.readonly" })
 	copyLiteralRule(c, "C09.copylit", func(name string) bool { return strings.HasPrefix(name, "reduce") || name == "Reduce" })
 	zoneC09(c)
 }
